@@ -127,8 +127,11 @@ static std::pair<long, int> run_history(const uint8_t* data, size_t size, bool c
     if (m.type == T_ERROR || m.type == T_RETURN) { Field x; x.code = F_REPLY_SERIAL; x.v = Value::basic('u', 500 + pick(f, 50)); fs.push_back(x); }
     if (!dest.empty()) addS(F_DESTINATION, 's', dest);
     if (!rare(f, 4)) {  // forged SENDER
-      int k = (int)pick(f, 4);
-      std::string fake = k == 0 ? BUS_NAME : k == 1 ? ":1.424242" : k == 2 ? h.uniq((c + 1) % nclients) : "com.vp.Fake";
+      int k = (int)pick(f, 9);
+      std::string own = h.uniq(c).empty() ? std::string(":1.7") : h.uniq(c);
+      std::string fake = k == 0 ? BUS_NAME : k == 1 ? ":1.424242" : k == 2 ? h.uniq((c + 1) % nclients) : k == 3 ? "com.vp.Fake"
+                       : k == 4 ? own + std::to_string(pick(f, 10))          // names that extend / abbreviate / equal the writer's own name
+                       : k == 5 ? own + ".x" : k == 6 ? own.substr(0, own.size() - 1) : k == 7 ? own : own + "a";
       if (fake.empty()) fake = ":9.9";
       addS(F_SENDER, 's', fake); forged = true;
     }
